@@ -319,14 +319,15 @@ class Extractor:
                         it["len"] = arg
                     return pre + [(buf, it)]
                 if name == "write_u8_slice":
-                    a = H.peel(n["args"][0])
+                    src = resolve_place(self.fn["body"], n["args"][0])
+                    a = H.peel(src)
                     l = H.local_of(a)
                     if l is not None and "Vec<u8>" in (H.peel(a).get("ty") or ""):
                         return pre + [(buf, {"i": "splice", "buf": self.alias.get(l[0], l[0]), "bufname": l[1], "node": n})]
                     if a.get("k") == "array" and all(isinstance(H.const_value(x), int) for x in a["es"]):
                         return pre + [(buf, {"i": "p", "t": "u8", "node": n, "name": name, "arg": x, "const": H.const_value(x), "len": None, "kind": "pad"})
                                       for x in a["es"]]
-                    return pre + [(buf, {"i": "bytes", "node": n, "arg": n["args"][0]})]
+                    return pre + [(buf, {"i": "bytes", "node": n, "arg": src})]
                 if name == "write_slice":
                     a1, a2 = H.peel(n["args"][1]), H.peel(n["args"][2])
                     if a1.get("k") == "closure" and a2.get("k") == "closure":
@@ -363,6 +364,18 @@ class Extractor:
         for a in n["args"]:
             out.extend(self.walk(a))
         return out
+
+
+def resolve_place(root, e, depth=0):
+    """`e`, with an immutable let-bound local that merely names a place (`let bytes = &attribute.bytes;`) replaced by that place."""
+    l = H.local_of(e)
+    if l and depth < 4:
+        let = next((n for n in H.walk(root) if n.get("k") == "let" and "init" in n and n["pat"].get("k") == "bind" and n["pat"]["id"] == l[0]), None)
+        if let is not None and "mut" not in (let["pat"].get("mode") or "").split():
+            r, path = H.place_root(let["init"])
+            if r is not None and (path or H.local_of(let["init"])) and not any(p_ == ".clone()" or p_ == ".to_owned()" for p_ in path):
+                return resolve_place(root, let["init"], depth + 1)
+    return e
 
 
 ITER_CONSUMERS = ("try_for_each", "for_each", "map")
